@@ -36,6 +36,11 @@ Inductive cop :=
 | XRemove (k : N) (id_after : N)
 | XCas (k : N) (old : N) (servfail : bool) (ok : bool) (id_after : N).  (* servfail: the refresh was a SERVFAIL, which never displaces a positive entry *)
 
+(* steps of a history on one zone's RFC 8198 proof index (injected clock) *)
+Inductive pstep :=
+| PAdm (now : Z) (cut : option Z) (common : list prr) (sets : list pset) (ok : bool)
+| PLook (now : Z) (needed : list N) (ttl : Z) (exp : option Z).
+
 Inductive case :=
 (* dnsutil.getRRSIGTTL(sig, now), exact *)
 | CSigTTL (ttl exp now obs : Z)
@@ -66,6 +71,8 @@ Inductive case :=
 | CProofExp (max_ttl : Z) (cut : option Z) (records : list prr) (now : Z) (obs : option Z)
 (* denial proof cache with injected clock: SOA expiry, piece expiries, now; shown ttl / expiry *)
 | CProofServe (soa_exp : Z) (pieces : list Z) (now ttl : Z) (exp_obs : option Z)
+(* several admissions into one zone's proof index across clock steps, and lookups *)
+| CProofHist (max_ttl : Z) (steps : list pstep)
 (* ReplaceIfCurrent racing SetFromResponse*/Purge on one store, any order *)
 | CCas (ops : list cop)
 (* prefetch through the real queue: claimed entry, refresh inputs, what the
@@ -244,6 +251,23 @@ Fixpoint cut_consulted (fuel : nat) (pres : list pre) (pcuts : list ncut) (misse
            end
   end.
 
+(* the names the chase from [n] actually consulted: follow the aliases in the
+   reply, but not past a name answered by a live cached NXDOMAIN (terminal) *)
+Fixpoint reach_consulted (fuel : nat) (pres : list pre) (missed : list N) (t0 : Z) (an : list mrr) (n : N) : list N :=
+  match fuel with
+  | O => [n]
+  | S f =>
+      let terminal := negb (mem_n n missed)
+                      && match find_pre pres n with
+                         | Some p => (g_rcode (p_msg p) =? 3)%N && match pre_end p with Some pe => t0 <? pe | None => false end
+                         | None => false
+                         end in
+      n :: (if terminal then []
+            else flat_map (fun r => match m_type r with
+                                    | TCname t => if (m_owner r =? n)%N then reach_consulted f pres missed t0 an t else []
+                                    | _ => [] end) an)
+  end.
+
 (* owners whose records a downstream response supplied in this tree *)
 Definition fresh_owners (sc : list nscript) (missed : list N) : list N :=
   flat_map (fun n => match find (fun x => (ns_name x =? n)%N) sc with
@@ -302,18 +326,28 @@ Definition tree_spec (route : N) (pres : list pre) (pcuts : list ncut) (sc : lis
                         match find (fun x => (ns_name x =? n)%N) sc with
                         | Some x =>
                             let contributed := (n =? na_name a)%N || mem_n n (owners reply)
-                                               || (match g_an (ns_msg x), g_ns (ns_msg x) with [], _ :: _ => true | _, _ => false end) in
+                                               || (match g_an (ns_msg x), g_ns (ns_msg x) with [], _ :: _ => true | _, _ => false end)
+                                               (* a bare NXDOMAIN adopted as the outer rcode *)
+                                               || ((g_rcode (ns_msg x) =? 3)%N && (g_rcode reply =? 3)%N) in
                             if contributed then match ns_cut x with Some lease => e_end <=? lease | None => true end
                             else true
                         | None => true
                         end
                       else if mem_n n fresh then true
                       else match find_pre pres n with
-                           | Some p => if negb (mem_n n (owners reply)) then true
-                                       else match pre_end p with Some pe => e_end <=? pe | None => true end
+                           | Some p =>
+                               (* a live cached piece contributed when its records are in the
+                                  reply, or when it is the denial the outer NXDOMAIN was adopted from
+                                  (which may carry no record at all) *)
+                               let live := match pre_end p with Some pe => t0 <? pe | None => false end in
+                               let contributed := mem_n n (owners reply)
+                                                  || ((g_rcode (p_msg p) =? 3)%N && (g_rcode reply =? 3)%N) in
+                               if live && contributed
+                               then match pre_end p with Some pe => e_end <=? pe | None => true end
+                               else true
                            | None => true
                            end)
-                   (reach 12 (g_an reply) (na_name a))
+                   (reach_consulted 12 pres missed t0 (g_an reply) (na_name a))
            (* ... and no later than the subtree cut whose synthesised denial it adopted *)
            && match cut_consulted 12 pres pcuts missed (g_an reply) (na_name a) with
               | Some c => if (g_rcode reply =? 3)%N then e_end <=? nc_expires c else true
@@ -352,6 +386,63 @@ Fixpoint cas_spec (latest : list (N * N)) (ops : list cop) : bool :=
                     else negb ok && (id =? cur)%N && cas_spec latest r
       | None => negb ok && (id =? 0)%N && cas_spec latest r
       end
+  end.
+
+(* ---------------- proof index histories ---------------- *)
+
+Fixpoint phist_check (mx : Z) (st : pindex) (l : list pstep) : bool :=
+  match l with
+  | [] => true
+  | PAdm now cut common sets ok :: r =>
+      let '(st', ok') := pi_admit mx st now cut common sets in
+      Bool.eqb ok ok' && phist_check mx st' r
+  | PLook now needed ttl eo :: r =>
+      let '(st', res) := pi_lookup st now needed in
+      (match res with
+       | Some (t, e) => (t =? ttl) && oz_eqb eo (Some e)
+       | None => (ttl <? 0) && oz_eqb eo None
+       end) && phist_check mx st' r
+  end.
+
+(* the statement, per admission: the end of what a piece was admitted with is
+   the plain minimum of the SOA terms, the SOA signature, the set's own terms,
+   the lease and the 3 h cap, counted from the admission *)
+Definition adm_end (mx now : Z) (cut : option Z) (common set : list prr) : Z :=
+  let cap := if (0 <? mx) && (mx <? spec_proof_cap) then mx else spec_proof_cap in
+  now + spec_plain (flat_map (prr_cands now) (common ++ set) ++ match cut with Some c => [c - now] | None => [] end) cap.
+
+(* latest accepted admission (scanning the history so far, newest first) that carried owner [o] *)
+Fixpoint latest_end (mx : Z) (past : list pstep) (o : N) : option Z :=
+  match past with
+  | [] => None
+  | PAdm now cut common sets true :: r =>
+      match find (fun s => (ps_owner s =? o)%N) sets with
+      | Some s => Some (adm_end mx now cut common (ps_records s))
+      | None => latest_end mx r o
+      end
+  | _ :: r => latest_end mx r o
+  end.
+Fixpoint latest_soa_end (mx : Z) (past : list pstep) : option Z :=
+  match past with
+  | [] => None
+  | PAdm now cut common _ true :: r => Some (adm_end mx now cut common [])
+  | _ :: r => latest_soa_end mx r
+  end.
+
+Fixpoint phist_spec (mx : Z) (past : list pstep) (l : list pstep) : bool :=
+  match l with
+  | [] => true
+  | (PLook now needed ttl eo as st) :: r =>
+      (if ttl <? 0 then true
+       else
+         let ok_end (e : option Z) := match e with Some x => (now <? x) && (ttl * second <=? x - now) | None => false end in
+         ok_end (latest_soa_end mx past) && forallb (fun o => ok_end (latest_end mx past o)) needed
+         && match eo with
+            | Some x => forallb (fun o => match latest_end mx past o with Some y => x <=? y | None => false end) needed
+            | None => false
+            end)
+      && phist_spec mx (st :: past) r
+  | st :: r => phist_spec mx (st :: past) r
   end.
 
 (* ------------------------------------------------------------------ *)
@@ -397,6 +488,7 @@ Definition check_case (c : case) : bool :=
       | Some (t, e) => (t =? ttl) && oz_eqb eo (Some e)
       | None => (ttl <? 0) && oz_eqb eo None
       end
+  | CProofHist mx steps => phist_check mx (mk_pindex None []) steps
   | CCas ops => cas_replay [] 1%N ops
   | CPrefetch claimed current cls rrs cut w0 w1 t0 t1 replaced after_id after =>
       let ok := (negb (current =? 0)%N) && (current =? claimed)%N && admitted_class cls in
@@ -478,6 +570,7 @@ Definition spec_case (c : case) : bool :=
       if ttl <? 0 then true
       else forallb (fun x => (now <? x) && (ttl * second <=? x - now)) (se :: pcs)
            && match eo with Some e => forallb (fun x => e <=? x) (se :: pcs) | None => false end
+  | CProofHist mx steps => phist_spec mx [] steps
   | CCas ops => cas_spec [] ops
   | CPrefetch claimed current cls rrs cut w0 w1 t0 t1 replaced after_id after =>
       (* a refresh that lost the race leaves the newer entry in place; one that
